@@ -524,6 +524,7 @@ package transport
 
 // Constructors: the invariants assumed everywhere above hold for a new object.
 //@ func NewDnsConn [C01, C09, C07]
+//@   log NewDnsConn
 //@   requires conn != nil
 //@   modifies *
 //@   ensures result != nil && fresh(result) && result.c == conn && result.maxCq >= 1 && result.closeNotify != nil
